@@ -29,6 +29,11 @@ PROFILES = {
     'serial':    dict(BASE, wSaveLoad=35, pGuardCancel=40, pGuardIssue=30, wExitEnter=2, wReset=1),
     'plans':     dict(BASE, planDump=1, wPlanEdit=4, wExtStatus=2, pSucceed=180, pFail=40, pPlanInCb=40, pHeadStatus=60, pGuardCancel=40, pGuardIssue=20, pIssue=15, maxBatch=1, kinds=0x7f),
     'plans-edit': dict(BASE, planDump=1, wPlanEdit=12, wExtStatus=1, pSucceed=60, pFail=10, pPlanInCb=150, pGuardCancel=20, pGuardIssue=10, pIssue=10, maxBatch=1),
+    'utility':   dict(BASE, kinds=0x31, pGuardCancel=30, pGuardIssue=30, pIssue=40, maxBatch=2, wReset=2, wImmediate=4),
+    'utility-hostile': dict(BASE, kinds=0x31, palette=1, pGuardCancel=0, pGuardIssue=0, pIssue=20, maxBatch=1, wReset=2, wImmediate=6),
+    'mirror':    dict(BASE, verboseMethods=1, logAnswers=1, structDump=1, pGuardCancel=100, pGuardIssue=80, wReset=2, wExitEnter=2, wQuery=2),
+    'mirror-idle': dict(BASE, verboseMethods=1, logAnswers=1, structDump=1, pIssue=2, maxBatch=1, pGuardCancel=0, pGuardIssue=0, wQuery=0, wReact=0, wImmediate=1, wReset=0, wExitEnter=0),
+    'mirror-plans': dict(BASE, verboseMethods=1, logAnswers=1, structDump=1, planDump=1, wPlanEdit=3, wExtStatus=2, pSucceed=150, pFail=40, pHeadStatus=50, pGuardCancel=40, pGuardIssue=20, pIssue=15, maxBatch=1),
     'payload':   dict(BASE, pGuardCancel=60, pGuardIssue=100, pIssue=80, maxBatch=4),
 }
 
@@ -44,6 +49,8 @@ SHAPE_PROPS = {
     'C07': dict(profiles=['plans-edit', 'plans'], title='plan storage'),
     'C08': dict(profiles=['serial'], title='save/load'),
     'C09': dict(profiles=['history', 'replica', 'single'], title='history'),
+    'C12': dict(profiles=['utility', 'utility-hostile'], title='utility / random selection'),
+    'C16': dict(profiles=['mirror', 'mirror-idle', 'mirror-plans'], title='logger / structure report'),
     'C13': dict(profiles=['single', 'mixed'], title='queries'),
     'C14': dict(profiles=['payload'], title='payloads'),
 }
@@ -57,10 +64,12 @@ RULES = {
     'C07': 'evaluations = plan edits (append / remove-while-iterating / clear) applied and compared; distinct_nontrivial = distinct (shape, per-region task id lists) plan contents observed',
     'C08': 'evaluations = save/load pairs between two independently walked instances; distinct_nontrivial = distinct (shape, destination configuration before, saved active, saved resumable) triples',
     'C09': 'evaluations = steps whose previousTransitions()/lastTransitionTo() were compared with the interpreter; distinct_nontrivial = distinct (shape, recorded history, configuration) with a non-empty history',
+    'C12': 'evaluations = select/utility/random resolutions compared with the interpreter (weighted draws additionally re-checked in exact rational arithmetic); distinct_nontrivial = distinct (region, rank vector, utility vector, generator output) draws and (region, utility vector) choices',
+    'C16': 'evaluations = user callbacks matched against the logger stream plus structure()/activityHistory() snapshots; distinct_nontrivial = distinct (shape, activity-history vector) values observed after a change',
     'C13': 'evaluations = quiescent query checks; distinct_nontrivial = distinct (shape, configuration before, after) of single-request rounds whose isPending* vectors were compared with the enter/exit callbacks',
     'C14': 'evaluations = payload observations (guards, enter, history, lastTransition); distinct_nontrivial = distinct (shape, id tuple recorded in history)',
 }
-EVAL_KEY = {'C06': 'C06.steps', 'C07': 'C07.plan-comparisons', 'C08': 'C08.loads', 'C05': 'C05.deliveries', 'C04': 'C04.guard-calls', 'C13': 'C13.quiescent-checks', 'C14': 'C14.payloads-seen-by-guards'}
+EVAL_KEY = {'C16': 'C16.callbacks-mirrored', 'C12': 'C12.resolutions', 'C06': 'C06.steps', 'C07': 'C07.plan-comparisons', 'C08': 'C08.loads', 'C05': 'C05.deliveries', 'C04': 'C04.guard-calls', 'C13': 'C13.quiescent-checks', 'C14': 'C14.payloads-seen-by-guards'}
 ASSUME = [
     'the generated machine shapes and the seeded walks are a sample, not the whole quantifier',
     'the director keeps runs inside the documented preconditions (DESIGN 2.2): select/utilize/randomize only where no anonymous head takes part, positive top-rank utility sums',
@@ -102,6 +111,7 @@ def run_job(job):
         if header is None: raise RuntimeError('log has no header')
         knobs = {k: v for k, v in PROFILES[profile].items() if k in ('zeroUtil', 'palette', 'pConsume')}
         knobs['plans'] = 1 if PROFILES[profile].get('planDump') else 0
+        knobs['mirror'] = 1 if PROFILES[profile].get('verboseMethods') else 0
         knobs['taskcap'] = sj['cfg'].get('taskcap') or 2 * sj['expect']['COMPO_PRONGS']
         chk = check_log.Checker(sj, int(header[3]), knobs, int(header[5]), header[4] == '1')
         chk.run(ops)
@@ -118,6 +128,23 @@ def run_job(job):
     except Exception as ex:
         import traceback
         res['error'] = 'checker: %r %s' % (ex, traceback.format_exc()[-800:])
+    if prop == 'C16' and 'error' not in res and rc == 0:
+        # same program, same seed, logger detached: everything but the logger's own records must be identical
+        logp2 = logp + '.nolog'
+        rc2, out2, err2 = vlib.run_bin(binp, [a for a in args if not a.startswith('log=')] + ['log=' + logp2, 'useLogger=0'], timeout=600)
+        try:
+            with open(logp) as f1: a1 = [l for l in f1 if l[0] not in 'tuwxrM']
+            with open(logp2) as f2: a2 = [l for l in f2 if l[0] not in 'tuwxrM']
+            res['summary']['stats']['C16.logger-detached-comparisons'] = 1
+            res['summary']['stats']['C16.lines-compared-with-logger-detached'] = len(a1)
+            if a1 != a2:
+                i = 0
+                while i < min(len(a1), len(a2)) and a1[i] == a2[i]: i += 1
+                res['summary']['violations']['C16.detach|behaviour-differs-with-logger-detached'] = {'property': 'C16', 'count': 1, 'first': {'line': i, 'with-logger': a1[i:i + 3], 'without': a2[i:i + 3]}}
+        except Exception as ex:
+            res['error'] = 'pair compare: %r' % ex
+        try: os.unlink(logp2)
+        except OSError: pass
     if not keep:
         try: os.unlink(logp)
         except OSError: pass
@@ -125,7 +152,8 @@ def run_job(job):
     return res
 
 def shape_engine(prop, tier, seed, keep=False):
-    conf = SHAPE_PROPS[prop]; T = TIERS[tier]
+    conf = dict(SHAPE_PROPS[prop]); T = TIERS[tier]
+    if os.environ.get('VERIF_PROFILES'): conf['profiles'] = os.environ['VERIF_PROFILES'].split(',')   # debugging aid
     V = vlib.Verdict(prop, tier, seed)
     vlib.prune_cache()
     flavours = list(T['flavours'])
@@ -186,7 +214,7 @@ def adjudicate(V, prop, results, shapeset, flavours, extra):
         for h in r['cfg_hashes']: cfgs.add(h)
         if len(samples) < 4 and s['samples']:
             sm = dict(s['samples'][-1]); sm.update(shape=r['shape'], desc=r['desc'], flavour=r['flavour'], profile=r['profile'], seed=r['seed']); samples.append(sm)
-    distinct = len(nt) if prop in ('C02', 'C04', 'C05', 'C06', 'C07', 'C08', 'C09', 'C13', 'C14') else len(cfgs)
+    distinct = len(nt) if prop in ('C02', 'C04', 'C05', 'C06', 'C07', 'C08', 'C12', 'C16', 'C09', 'C13', 'C14') else len(cfgs)
     cov = {
         'evaluations': evals, 'distinct_nontrivial': distinct, 'rule': RULES[prop], 'samples': samples,
         'runs': len(results), 'runs_completed': completed, 'shapes': [{'name': s['name'], 'desc': s['desc'], 'cfg': s['cfg']} for s in shapeset],
